@@ -20,6 +20,10 @@ type descriptor struct {
 	Merge   bool           `json:"merge"`   // branches merge into one end event (exclusive merge) instead of separate ends
 	Script  []drive.Stim   `json:"script"`
 	Perturb uint64         `json:"perturb"`
+	// Loop: the branch of alternative 0 leads back into the gateway (the
+	// gateway is re-entered; the alternatives withdrawn in the first round
+	// must be armed again)
+	Loop bool `json:"loop,omitempty"`
 }
 
 func build(d descriptor) *gen.Graph {
@@ -39,12 +43,16 @@ func build(d descriptor) *gen.Graph {
 		en := b.Add(gen.KEnd)
 		b.Connect(mrg, en)
 	}
-	for _, a := range d.Alts {
+	for i, a := range d.Alts {
 		c := b.Add(gen.KCatch)
 		c.Defs = []gen.EventDef{a}
 		b.Connect(eg, c)
 		t := b.Add(gen.KTask)
 		b.Connect(c, t)
+		if d.Loop && i == 0 {
+			b.Connect(t, eg)
+			continue
+		}
 		if d.Merge {
 			b.Connect(t, mrg)
 		} else {
@@ -127,6 +135,15 @@ func draw(rt *rapid.T) descriptor {
 	for i := 0; i < nl; i++ {
 		d.Script = append(d.Script, ev())
 	}
+	if maxLate > 0 && rapid.IntRange(0, 2).Draw(rt, "loop") == 0 {
+		// re-entry: whenever alternative 0 wins the token returns to the gateway;
+		// further rounds of events and answers
+		d.Loop = true
+		for i := rapid.IntRange(1, 4).Draw(rt, "rounds"); i > 0; i-- {
+			d.Script = append(d.Script, drive.Stim{Kind: "answer"}, ev())
+		}
+		d.Script = append(d.Script, drive.Stim{Kind: "answer"}, drive.Stim{Kind: "event", Ev: evOf(d.Alts[1])}, drive.Stim{Kind: "answer"})
+	}
 	return d
 }
 
@@ -168,6 +185,12 @@ func classify(d descriptor, out *drive.ScriptOutcome) (cls []string, nt bool) {
 		}
 	}
 	cls = append(cls, fmt.Sprintf("alts=%d", len(d.Alts)))
+	if d.Loop {
+		cls = append(cls, "loopBackToGateway")
+		if out != nil && len(out.Fired) >= 2 {
+			cls = append(cls, "gatewayDecidedTwice")
+		}
+	}
 	if concurrent {
 		cls = append(cls, "concurrentEvents")
 	}
